@@ -331,7 +331,7 @@ func runC06History(v *c06Vector, mode string, schemas map[string]*abs.Built, st 
 		}
 		// transparency: same response as the from-scratch path
 		vars := c06Vars(s.Vars)
-		rcF := &abs.RunCtx{Built: b, Root: rootObject, RootTag: "r"}
+		rcF := &abs.RunCtx{Built: b, Root: rootObject, RootTag: "r", MutateArgs: true}
 		fresh := runDo(b, s.Text, s.Op, vars, rcF)
 		if len(pr.Errors) > 0 {
 			if pr.Plan != nil {
@@ -352,7 +352,8 @@ func runC06History(v *c06Vector, mode string, schemas map[string]*abs.Built, st 
 		for k, x := range pr.SynthArgs {
 			args[k] = x
 		}
-		rcC := &abs.RunCtx{Built: b, Root: rootObject, RootTag: "r"}
+		// resolvers mutate the Args map they are given: a plan served again from the cache must not remember it
+		rcC := &abs.RunCtx{Built: b, Root: rootObject, RootTag: "r", MutateArgs: true}
 		res, pan2 := guard(func() *graphql.Result {
 			return graphql.ExecutePlan(pr.Plan, graphql.ExecuteParams{Schema: b.Schema, Root: rootObject, Args: args,
 				Context: abs.WithRun(context.Background(), rcC)})
